@@ -348,10 +348,11 @@ def parse_unit(path):
                 section = ('loop', n)
             elif cmd == 'closure':
                 # //@ closure ret=<name:Type> at <literal start of the closure>
-                m = re.match(r'closure\s+ret=(\S+)\s+at\s+(.*)$', d)
+                m = re.match(r'closure\s+ret=(\S+)\s+(?:nth=(\d+)\s+)?(?:optional\s+)?at\s+(.*)$', d)
+                copt = bool(re.match(r'closure\s+ret=\S+\s+(?:nth=\d+\s+)?optional\s+at', d))
                 if not m:
                     raise SystemExit('%s:%d: bad closure directive' % (path, ln_no))
-                cur_fn.closures.append((m.group(2).strip(), m.group(1), '', ln_no))
+                cur_fn.closures.append((m.group(3).strip() + ('\x00%s' % m.group(2) if m.group(2) else '') + ('\x01' if copt else ''), m.group(1), '', ln_no))
                 section = ('closure', len(cur_fn.closures) - 1)
             elif cmd == 'insert':
                 where = words[1]
@@ -521,7 +522,19 @@ def render_fn(sf, item, d, drops, em, canary, take_opts=()):
             new = ''.join(a + '\n' for a in nd.attrs) + nsig.rstrip() + '\n' + nd.spec[0] + '\n{\n' + nd.head[0] + '\n'
             edits[f0] = (b0 + 1, new)
         for (lit, ret, text, uline) in d.closures:
-            k = src.find(lit, body_open + 1, body_close)
+            nth = 1
+            c_optional = lit.endswith('\x01')
+            lit = lit.rstrip('\x01')
+            if '\x00' in lit:
+                lit, nth_s = lit.split('\x00')
+                nth = int(nth_s)
+            k = body_open
+            for _ in range(nth):
+                k = src.find(lit, k + 1, body_close)
+                if k < 0:
+                    break
+            if k < 0 and c_optional:
+                continue
             if k < 0 or src[k] != '|' and not src.startswith('move', k):
                 raise LostAnchor('%s: closure %r not found' % (d.path, lit))
             p0 = src.index('|', k)
